@@ -18,6 +18,7 @@ TraceInit == tid \in 1..N /\ l = 1 /\ C = C0 /\ last = <<>>
 Post == CASE E.o = "recv"   -> Recv(C, E.m)
           [] E.o = "on"     -> OnEvent(C, E.cb)
           [] E.o = "rmid"   -> RmById(C, E.id)
+          [] E.o = "rmcb"   -> RmById(C, E.id)          \* removal by callback: each registered callback is its own function
           [] E.o = "rmcrit" -> RmByCriteria(C, E.dev, E.vec, E.el, E.ty)
           [] E.o = "tick"   -> RunTasks(C)
           [] E.o = "recvbad" -> Fresh(C)        \* an ill-formed BLOB update (declared size # payload): rejected as a whole
